@@ -118,7 +118,7 @@ fn run_impl(o: &Op, watchdog: bool) -> Caught<(Result<usize, coupe::Error>, Vec<
     if in_pool {
         catch(work)
     } else if watchdog {
-        catch_timeout(20, move || p.install(work))
+        catch_timeout(60, move || p.install(work))
     } else {
         catch(move || p.install(work))
     }
